@@ -179,10 +179,11 @@ func genConcTask(r *sim.Rng) ConcTask {
 
 func genConcCase(r *sim.Rng, tier string, idx int) *ConcCase {
 	c := &ConcCase{Mode: "lockstep", SchedSeed: r.Uint64()}
-	// (SharedProps is never generated: callers that re-tune one Properties value
-	// shared by several writers are outside "distinct instances" - the pinned
-	// xz.Writer itself reads the value again at every block start. The switch is
-	// kept for experiments only, see DESIGN.md §11.)
+	// SharedProps: the writer tasks re-tune one Properties value of the caller,
+	// each right before it creates its writer (every writer gets a configuration
+	// of its own by value; what it does with the pointer inside is its business).
+	// First judged outside the property, see DESIGN.md §6 #25 for the reversal.
+	c.SharedProps = r.Chance(1, 8)
 	if os.Getenv("VERIF_C14_MODE") == "race" {
 		c.Mode = "free"
 		c.Procs = sim.Pick(r, []int{1, 4, 16})
